@@ -264,6 +264,20 @@ class World:
         self.lw = {d["name"]: build_labware(d) for d in case["worktable"]}
         self.device = device or case.get("worklist", {}).get("device", "evo")
         self.wl = build_worklist(case.get("worklist", {}), self.device, filepath)
+        self.preamble_records = 0
+        if not filepath:
+            self.run_preamble()
+
+    def run_preamble(self):
+        """Records the user wrote before the operations under test (DiTi selection, comments, a wash)."""
+        for op in self.case.get("worklist", {}).get("preamble", ()):
+            try:
+                self._dispatch(op)
+            except attach.MonitorAbort:
+                raise
+            except Exception:
+                pass
+        self.preamble_records = len(self.wl)
 
     def exec(self, op) -> Outcome:
         att = self.att
